@@ -76,7 +76,9 @@ func (h) Rule() string {
 		"then 2 or 3 conflicting calls that all read the set-up root and are introduced in a forced order: every release order of " +
 		"every generated workload) and merge-window scenarios (set-up batches of growing size so that the older segment is the " +
 		"smaller one, the merger parked at EventKindMergeTaskIntroductionStart with its file merge of them written, 1–3 client " +
-		"goroutines deleting/updating documents of the merged segments, release, readers); a case is non-trivial when at least two calls overlap in time, distinct by (configuration, " +
+		"goroutines deleting/updating documents of the merged segments, release, readers; the same with the merger held INSIDE the " +
+		"planner (MergePlanOptions.CalcBudget: snapshot taken, task not started), half of those deleting all documents but one); " +
+		"every reader also reports Snapshot.Count(); a case is non-trivial when at least two calls overlap in time, distinct by (configuration, " +
 		"workload, recorded introduction order)"
 }
 
@@ -266,6 +268,7 @@ type obsRec struct {
 	tReq, tGot int64
 	epoch      uint64
 	content    string
+	count      int64 // Snapshot.Count() of the reader
 	fault      string
 }
 
@@ -292,6 +295,8 @@ type run struct {
 	// merge-window scenario: the merger is parked at EventKindMergeTaskIntroductionStart (merged segment written,
 	// merge not yet handed to the introducer) while conflicting calls are introduced
 	mw        bool
+	mwKind    int // 1: hold at EventKindMergeTaskIntroductionStart (merged segment written); 2: hold inside the planner
+	// (MergePlanOptions.CalcBudget: the merger has taken its snapshot, the merge task has not started)
 	parkArmed atomic.Bool
 	parkHit   chan struct{}
 	parkGo    chan struct{}
@@ -458,40 +463,38 @@ func (a *storedAcc) visit(field string, value []byte) bool {
 }
 
 // what a reader shows: every document match-all finds, with its stored fields
-func readSnapshot(snap *index.Snapshot, cfg bluge.Config) (string, string) {
+func readSnapshot(snap *index.Snapshot, cfg bluge.Config) (string, int64, string) {
 	req := bluge.NewAllMatches(bluge.NewMatchAllQuery())
 	searcher, err := req.Searcher(snap, cfg)
 	if err != nil {
-		return "", "err:searcher"
+		return "", -1, "err:searcher"
 	}
 	it, err := req.Collector().Collect(context.Background(), req.Aggregations(), searcher)
 	if err != nil {
-		return "", "err:collect"
+		return "", -1, "err:collect"
 	}
 	var ds []doc
 	for {
 		m, err := it.Next()
 		if err != nil {
-			return "", "err:next"
+			return "", -1, "err:next"
 		}
 		if m == nil {
 			break
 		}
 		var acc storedAcc
 		if err := m.VisitStoredFields(acc.visit); err != nil {
-			return "", "err:stored"
+			return "", -1, "err:stored"
 		}
 		d, _, _ := digest(acc.m)
 		ds = append(ds, d)
 	}
 	n, err := snap.Count()
 	if err != nil {
-		return "", "err:count"
+		return "", -1, "err:count"
 	}
-	if int(n) != len(ds) {
-		return docsString(ds), fmt.Sprintf("count=%d-but-%d-matches", n, len(ds))
-	}
-	return docsString(ds), ""
+	// Snapshot.Count() is reported next to the documents match-all finds: both are judged against the prefix state
+	return docsString(ds), int64(n), ""
 }
 
 type segDocs struct {
@@ -629,7 +632,7 @@ func openCase(line string, work string) error {
 	}
 	rn := &run{byGo: map[uint64]*callRec{}, held: map[segment.Segment]bool{}, recording: true,
 		pt: &perturber{seed: seed, on: true}, gatePct: kv(f, "gate", 0),
-		mw: kv(f, "mw", 0) == 1, parkHit: make(chan struct{}), parkGo: make(chan struct{})}
+		mw: kv(f, "mw", 0) >= 1, mwKind: kv(f, "mw", 0), parkHit: make(chan struct{}), parkGo: make(chan struct{})}
 	for _, x := range f {
 		if strings.HasPrefix(x, "order=") {
 			for _, c := range strings.Split(x[6:], ",") {
@@ -664,13 +667,18 @@ func openCase(line string, work string) error {
 		ic.MergePlanOptions = mergeplan.Options{
 			MaxSegmentsPerTier: 1, MaxSegmentSize: 5000000, TierGrowth: 10, SegmentsPerMergeTask: 10,
 			FloorSegmentSize: 1, ReclaimDeletesWeight: 2,
-			CalcBudget: func(int64, int64, *mergeplan.Options) int { return 1 },
+			CalcBudget: func(int64, int64, *mergeplan.Options) int {
+				if rn.mwKind == 2 {
+					rn.park() // on the merger goroutine, inside mergeplan.Plan
+				}
+				return 1
+			},
 		}
 		rn.parkArmed.Store(true)
 	}
 	ic.AsyncError = func(err error) {}
 	ic.EventCallback = func(e index.Event) {
-		if rn.mw && e.Kind == index.EventKindMergeTaskIntroductionStart {
+		if rn.mwKind == 1 && e.Kind == index.EventKindMergeTaskIntroductionStart {
 			rn.park()
 		}
 		rn.pt.yield(uint64(10 + e.Kind))
@@ -925,6 +933,7 @@ func runCase(out func(string, string), st sink) {
 	}
 	known := map[uint64]bool{}
 	contents := make([]string, len(roots))
+	counts := make([]int, len(roots)) // what Snapshot.Count() computes: sum of segment.Count() - deleted.GetCardinality()
 	var order []string
 	for i, r := range roots {
 		var live []doc
@@ -944,6 +953,7 @@ func runCase(out func(string, string), st sink) {
 					live = append(live, d)
 				}
 			}
+			counts[i] += len(sd.docs) - len(s.deleted)
 			if !known[s.sid] && r.creator == "introduceSegment" && len(sd.calls) > 0 {
 				who = strconv.Itoa(sd.calls[0])
 				newSid = s.sid
@@ -979,18 +989,18 @@ func runCase(out func(string, string), st sink) {
 	}
 	out("explain cfg="+curCfg, fmt.Sprintf("calls=%d slots=%d reads=%d", len(rn.calls), len(order), len(rn.obs)+1))
 	for i, r := range roots {
-		out(fmt.Sprintf("root %d %s", r.epoch, r.creator), contents[i])
+		out(fmt.Sprintf("root %d %s", r.epoch, r.creator), fmt.Sprintf("n=%d %s", counts[i], contents[i]))
 	}
 	for _, o := range rn.obs {
-		res := o.content
+		res := fmt.Sprintf("n=%d %s", o.count, o.content)
 		if o.fault != "" {
-			res = o.fault + " " + o.content
+			res = o.fault + " " + res
 		}
 		out(fmt.Sprintf("reader %d %d", o.n, o.epoch), res)
 	}
-	res := fin.content
+	res := fmt.Sprintf("n=%d %s", fin.count, fin.content)
 	if fin.fault != "" {
-		res = fin.fault + " " + fin.content
+		res = fin.fault + " " + res
 	}
 	out(fmt.Sprintf("final %d", fin.epoch), res)
 
@@ -1054,7 +1064,7 @@ func (rn *run) mwStats(st sink, roots []*rootRec, cache map[segment.Segment]*seg
 		st.Count("merge-window:skipped-roots-not-recorded")
 		return
 	}
-	st.Count("merge-window:file-merge-held-and-released")
+	st.Count(fmt.Sprintf("merge-window:file-merge-held-and-released:hold%d", rn.mwKind))
 	now := map[uint64]bool{}
 	for _, s := range merged.segs {
 		now[s.sid] = true
@@ -1065,28 +1075,25 @@ func (rn *run) mwStats(st sink, roots []*rootRec, cache map[segment.Segment]*seg
 		ids  map[int]bool
 	}
 	var gone []gs
-	for _, s := range before.segs {
-		if now[s.sid] {
+	_ = before
+	// the segments the merger had in its snapshot (the root that stood when it was parked) and that the merge root
+	// no longer holds — merged away, or emptied in the window and left behind
+	for _, p := range atPark.segs {
+		if now[p.sid] || cache[p.seg] == nil {
 			continue
 		}
-		// the segment as the merger saw it: in the root that stood when the merger was parked
-		for _, p := range atPark.segs {
-			if p.sid != s.sid || cache[p.seg] == nil {
-				continue
-			}
-			del := map[uint32]bool{}
-			for _, d := range p.deleted {
-				del[d] = true
-			}
-			g := gs{sid: p.sid, ids: map[int]bool{}}
-			for j, d := range cache[p.seg].docs {
-				if !del[uint32(j)] {
-					g.live++
-					g.ids[d.id] = true
-				}
-			}
-			gone = append(gone, g)
+		del := map[uint32]bool{}
+		for _, d := range p.deleted {
+			del[d] = true
 		}
+		g := gs{sid: p.sid, ids: map[int]bool{}}
+		for j, d := range cache[p.seg].docs {
+			if !del[uint32(j)] {
+				g.live++
+				g.ids[d.id] = true
+			}
+		}
+		gone = append(gone, g)
 	}
 	st.Count(fmt.Sprintf("merge-window:segments-merged:%d", len(gone)))
 	if len(gone) < 2 {
@@ -1153,7 +1160,20 @@ func (rn *run) mwStats(st sink, roots []*rootRec, cache map[segment.Segment]*seg
 		}
 	}
 	if conflicts > 0 {
-		st.Count("merge-window:conflicting-call-during-file-merge")
+		if rn.mwKind == 2 {
+			st.Count("merge-window:conflicting-call-between-plan-and-merge")
+			left := 0
+			for _, s := range merged.segs {
+				if cache[s.seg] != nil {
+					left += len(cache[s.seg].docs) - len(s.deleted)
+				}
+			}
+			if left == 1 {
+				st.Count("merge-window:one-live-document-left-after-the-merge")
+			}
+		} else {
+			st.Count("merge-window:conflicting-call-during-file-merge")
+		}
 		st.CountN("merge-window:conflicting-calls", conflicts)
 		if differs {
 			st.Count("merge-window:conflict-and-order-differs")
@@ -1177,7 +1197,7 @@ func (rn *run) observe(n int) *obsRec {
 				o.fault = "panic"
 			}
 		}()
-		o.content, o.fault = readSnapshot(snap, rn.bcfg)
+		o.content, o.count, o.fault = readSnapshot(snap, rn.bcfg)
 	}()
 	if o.content == "" {
 		o.content = "-"
@@ -1446,6 +1466,73 @@ func genForced(r *hlib.Rand, nwork int, cfgs []string, emit func(string)) {
 // merge-window scenarios: set-up batches of growing size (the OLDER segment is the SMALLER one, so the planner's
 // roster — sorted by live size — is not in segment-id order), the merger parked once its file merge of those segments
 // is written, 1–3 client goroutines whose calls delete/update documents of the merged segments, release, readers
+// second hold point: inside the planner (the merger has its snapshot, the task has not started). Small set-ups; half
+// of the cases delete all documents but one, split over 1–2 client goroutines
+func genPlanWindow(r *hlib.Rand, n int, emit func(string)) {
+	cfgs := []string{"mem-v1-unsafe", "mem-v1-safe", "fs-v1-unsafe", "fs-v1-safe"}
+	for d := 0; d < n; d++ {
+		body, id := 0, 0
+		var setup []string
+		var all []int
+		size := r.Range(1, 2)
+		for sg := 0; sg < 2; sg++ {
+			var ops []string
+			for i := 0; i < size; i++ {
+				id++
+				body++
+				ops = append(ops, fmt.Sprintf("upd:%d:%d", id, body))
+				all = append(all, id)
+			}
+			setup = append(setup, strings.Join(ops, " "))
+			size += r.Range(0, 2)
+		}
+		emit(fmt.Sprintf("case %s k=%d gmp=%d sd=%d gate=0 mw=2", cfgs[d%len(cfgs)], id, []int{2, 4, 8}[d%3], r.Intn(1<<30)))
+		emit("w 0 " + strings.Join(setup, " | "))
+		nw := r.Range(1, 2)
+		if d%2 == 0 {
+			// leave exactly one document: the others are deleted, dealt out to the writers
+			keep := r.Intn(len(all))
+			var victims []int
+			for i, x := range all {
+				if i != keep {
+					victims = append(victims, x)
+				}
+			}
+			if nw > len(victims) {
+				nw = len(victims)
+			}
+			for w := 1; w <= nw; w++ {
+				var ops []string
+				for i, x := range victims {
+					if i%nw == w-1 {
+						ops = append(ops, fmt.Sprintf("del:%d", x))
+					}
+				}
+				emit(fmt.Sprintf("w %d %s", w, strings.Join(ops, " ")))
+			}
+		} else {
+			for w := 1; w <= nw; w++ {
+				m := r.Range(1, 2)
+				first := r.Intn(len(all))
+				var ops []string
+				for i := 0; i < m && i < len(all); i++ {
+					x := all[(first+i)%len(all)]
+					if r.Chance(65) {
+						ops = append(ops, fmt.Sprintf("del:%d", x))
+					} else {
+						body++
+						ops = append(ops, fmt.Sprintf("upd:%d:%d", x, body))
+					}
+				}
+				emit(fmt.Sprintf("w %d %s", w, strings.Join(ops, " ")))
+			}
+		}
+		emit(fmt.Sprintf("r 1 %d", r.Range(2, 3)))
+		emit("go")
+		emit("end")
+	}
+}
+
 func genMergeWindow(r *hlib.Rand, n int, emit func(string)) {
 	cfgs := []string{"mem-v1-unsafe", "mem-v1-safe", "fs-v1-unsafe", "fs-v1-safe"}
 	for d := 0; d < n; d++ {
@@ -1517,6 +1604,7 @@ func (h) Gen(r *hlib.Rand, tier string, scale int, emit func(string)) {
 		nmw = 600 * scale
 	}
 	genMergeWindow(r, nmw, emit)
+	genPlanWindow(r, nmw, emit)
 	for c := 0; c < ncases; c++ {
 		cfg := cfgs[c%len(cfgs)]
 		k := r.Range(2, 4)
